@@ -202,6 +202,10 @@ theorem C16_split_roundtrip (ps : List (List Char)) (hne : ps ≠ [])
 /-- Non-vacuity / sanity: nested key, escaped dot, plain key. -/
 example : splitKey "component.a\\.b.c" = ["component", "a.b", "c"] := by decide
 example : splitKey "logging" = ["logging"] := by decide
+/-- … and empty segments are segments (a doubled, leading or trailing dot addresses the key `""`): covered by the round
+trip above, whose parts may be empty. -/
+example : splitKey "logging.loggers..level" = ["logging", "loggers", "", "level"] := by decide
+example : splitKey ".a." = ["", "a", ""] := by decide
 
 example :
     (cliConfig
